@@ -216,7 +216,7 @@ def c10(tier, seed):
     return runs
 
 
-REGF = "Tok,ZTok,u32,Tok24,(),String"
+REGF = "Tok,ZTok,u32,Tok24,(),String,FatTok"
 
 
 def c11(tier, seed):
